@@ -65,6 +65,15 @@ def _is_integer_type(t):
     return bool(t) and bool(_INT_T.match(str(t).strip()))
 
 
+def _proj(v, i):
+    """i-th component of a tuple value, pushed through ite"""
+    if isinstance(v, tuple) and len(v) == 4 and v[0] == "ite":
+        return ("ite", v[1], _proj(v[2], i), _proj(v[3], i))
+    if isinstance(v, tuple) and v[:2] == ("call", "tuple") and i < len(v[2]):
+        return v[2][i]
+    return ("call", "get<%d>" % i, (v,))
+
+
 def mk(op, a, b):
     """constant folding for pure numbers, otherwise a plain node"""
     if a[0] == "num" and b[0] == "num":
@@ -808,6 +817,13 @@ class Frame:
                 return self.inline_or_opaque(n, self.F.functions[n["mg"]], self.fz(t), list(idx))
             return ("call", fn, (self.fz(t),) + idx)
         if op == "=":
+            lhs0 = strip_all(ops[0])
+            if lhs0 is not None and is_call(lhs0) and str(lhs0.get("fn", "")) in ("std::tie", "tie"):
+                # std::tie(a, b) = f(...):  component-wise assignment of the returned tuple
+                v = self.fz(self.e(ops[1]))
+                for i, a in enumerate(call_args(lhs0)):
+                    self.assign(a, _proj(v, i))
+                return v
             v = self.e(ops[1])
             self.assign(ops[0], v)
             return v
@@ -911,6 +927,8 @@ class Frame:
             return self.inline_or_opaque(n, self.F.functions[n["mg"]], None, args, args_n)
         args = tuple(self.fz(self.e(a)) for a in args_n)
         name = MATH_NAMES.get(fn, fn)
+        if name in ("std::make_tuple", "std::make_pair", "make_tuple", "make_pair"):
+            return ("call", "tuple", args)
         if name in ("min", "max") and len(args) == 1 and args[0][0] == "call" and args[0][1] == "initlist" and args[0][2]:
             # std::min({a, b, c}) -> min(a, min(b, c))
             el = args[0][2]
